@@ -144,6 +144,9 @@ class MDOParallelChain(ProcessDiscipline):
         self.jac = {}
         # Update jacobians according to input order of priority
         for discipline_jacobian in jacobians:
+            if discipline_jacobian is None:
+                # The linearization of this discipline failed.
+                continue
             for output_name, output_jacobian in discipline_jacobian.items():
                 # As in _execute,
                 # the last discipline computing an output defines it.
